@@ -484,6 +484,8 @@ def file_case(case):
                 def write_records(self):
                     with open(self.filename, self.filemode) as f:
                         f.writelines(self.records)
+                    # (the hook has no documented return value: this one reports something of its own)
+                    return {'true': True, 'zero': 0, 'chars': sum(map(len, self.records))}.get(case['own_writer'])
 
         start, end, freq = win
         kw = {'start': start, 'frequency': freq}
@@ -587,6 +589,9 @@ def run(ctx):
         for wc in (0, 1, 2):
             for wi in range(len(WINDOWS)):
                 cases.append({'leg': 'file', 'counts': counts, 'write_count': wc, 'win': wi, 'own_writer': True})
+                if wi == 0:
+                    for ret in ('true', 'zero', 'chars'):
+                        cases.append({'leg': 'file', 'counts': counts, 'write_count': wc, 'win': wi, 'own_writer': ret})
     # a flush that fails (output directory missing during one timestep), at every timestep
     for counts in ([1, 2, 0, 1, 2], [2, 2, 2, 2, 2]):
         for wc in (0, 1, 2):
